@@ -15,6 +15,7 @@ op verdictx <mid> <v> <a|r|i>       same, no exact prediction
 op quiet <mid>                     impl dlv <nodes>        network quiescent; nodes delivered to
 op quietx <mid>                    impl dlv <nodes>        same, at-least-once clause not applied
 op sendx <mid> <u> <w>             impl ok                 u answered an IWANT of w (Spec only)
+op ids <mid>                       impl same | differ:<k>  ids of the delivered copies vs `publish()`'s
 op livelock                        impl -                  the network never became quiescent
 ```
 -/
@@ -56,7 +57,9 @@ def sortNat (l : List Nat) : List Nat := l.foldr insertSorted []
 def init (cfg : List String) : DS :=
   { n := ((kv cfg "n").bind String.toNat?).getD 0
     flood := kv cfg "flood" == some "1"
-    anon := kv cfg "auth" == some "a"
+    -- a random author is a fresh PeerId that is no node of the network: the filter
+    -- `Some(p) != message.source` excludes nobody and `get_own_id()` is None, exactly as with no source
+    anon := kv cfg "auth" == some "a" || kv cfg "auth" == some "r"
     meshN := ((kv cfg "meshn").bind String.toNat?).getD 0
     valid := ((kv cfg "val").bind natList).getD []
     adj := ((kv cfg "adj").bind lists).getD [] }
@@ -166,6 +169,7 @@ def op (d : DS) (args : List String) : DS × String :=
     | none => (d, "unknown-message")
   | ["quietx", _] => (d, "-")
   | ["livelock"] => (d, "quiescent")
+  | ["ids", _] => (d, "same")
   | _ => (d, "bad-op")
 
 def verdict : Option String → String
@@ -177,6 +181,7 @@ def spec (d : DS) (args outs : List String) : DS × String :=
   match args with
   | ["hb", _] => (d, if outs == ["ok"] then "ok" else "FAIL:unparsable")
   | ["livelock"] => (d, "FAIL:no_quiescence")
+  | ["ids", _] => (d, verdict (specIds (outs == ["same"])))
   | ["snap", m, e] =>
     match lists m, lists e with
     | some m, some e => ({ d with mesh := m, exp := e }, if outs == ["ok"] then "ok" else "FAIL:unparsable")
